@@ -95,6 +95,7 @@ func gen(r *sim.Rng, tier string) *sim.Case {
 			p["huge"] = 1
 		}
 		p["over"] = r.N(2)
+		p["elem"] = r.Pick(8, 3, 2, 2) // element type: item, twelve-word struct, pointer, index
 	case 2:
 		nv := r.Range(1, 9)
 		if r.Pct(3) {
@@ -136,6 +137,80 @@ func viol(class, site, format string, a ...any) *sim.Violation {
 }
 
 type item struct{ idx, w, v int }
+
+// The element type of the main call is chosen by the case (algz is generic; a type-dependent
+// shortcut - by size, by pointer-ness - must not change the answer): the three-word item itself,
+// a twelve-word struct, a pointer, an index into a table.
+type wideItem struct {
+	pad0 [4]int
+	it   item
+	pad1 [5]int
+}
+
+func knapsackAs[T any](limit int, its []item, to func(item) T, back func(T) item, bk int) []item {
+	ts := make([]T, len(its))
+	for i, it := range its {
+		ts[i] = to(it)
+	}
+	sel := algz.Knapsack(limit, ts, func(t T) int { return back(t).w }, func(t T) int { return back(t).v }, breakerOfT[T](bk)...)
+	if sel == nil {
+		return nil
+	}
+	out := make([]item, len(sel))
+	for i, t := range sel {
+		out[i] = back(t)
+	}
+	return out
+}
+
+func dpAs[T any](limit int, its []item, over bool, to func(item) T, back func(T) item, bk int) algz.DpSolvers[item] {
+	ts := make([]T, len(its))
+	for i, it := range its {
+		ts[i] = to(it)
+	}
+	d := algz.FindDpSolvers(limit, ts, func(t T) int { return back(t).w }, over, breakerOfT[T](bk)...)
+	if d == nil {
+		return nil
+	}
+	out := algz.DpSolvers[item]{}
+	for k, sel := range d {
+		var conv []item
+		if sel != nil {
+			conv = make([]item, len(sel))
+			for i, t := range sel {
+				conv[i] = back(t)
+			}
+		}
+		out[k] = conv
+	}
+	return out
+}
+
+func knapsackOf(c *sim.Case, limit int, its []item) []item {
+	bk := c.P("breaker")
+	switch c.P("elem") {
+	case 1:
+		return knapsackAs(limit, its, func(i item) wideItem { return wideItem{it: i} }, func(w wideItem) item { return w.it }, bk)
+	case 2:
+		return knapsackAs(limit, its, func(i item) *item { return &i }, func(p *item) item { return *p }, bk)
+	case 3:
+		return knapsackAs(limit, its, func(i item) int { return i.idx }, func(k int) item { return its[k] }, bk)
+	}
+	return algz.Knapsack(limit, its, func(i item) int { return i.w }, func(i item) int { return i.v }, breakerOf(bk)...)
+}
+
+func dpOf(c *sim.Case, limit int, its []item, over bool) algz.DpSolvers[item] {
+	bk := c.P("breaker")
+	switch c.P("elem") {
+	case 1:
+		return dpAs(limit, its, over, func(i item) wideItem { return wideItem{it: i} }, func(w wideItem) item { return w.it }, bk)
+	case 2:
+		return dpAs(limit, its, over, func(i item) *item { return &i }, func(p *item) item { return *p }, bk)
+	case 3:
+		return dpAs(limit, its, over, func(i item) int { return i.idx }, func(k int) item { return its[k] }, bk)
+	}
+	return algz.FindDpSolvers(limit, its, func(i item) int { return i.w }, over, breakerOf(bk)...)
+}
 
 func exec(c *sim.Case, out *sim.WorkerOut) (*sim.Violation, bool) {
 	p := c.Params
@@ -212,15 +287,17 @@ func distinct(sel []item, site string) *sim.Violation {
 	return nil
 }
 
-func breakerOf(k int) []func(old, new []item) bool {
+func breakerOf(k int) []func(old, new []item) bool { return breakerOfT[item](k) }
+
+func breakerOfT[T any](k int) []func(old, new []T) bool {
 	switch k {
 	case 1:
-		return []func(old, new []item) bool{func(o, n []item) bool { return len(n) < len(o) }}
+		return []func(old, new []T) bool{func(o, n []T) bool { return len(n) < len(o) }}
 	case 2:
-		return []func(old, new []item) bool{func(o, n []item) bool { return true }}
+		return []func(old, new []T) bool{func(o, n []T) bool { return true }}
 	case 3:
 		// a tie-breaker that itself uses the package (calls share nothing)
-		return []func(old, new []item) bool{func(o, n []item) bool {
+		return []func(old, new []T) bool{func(o, n []T) bool {
 			small := []item{{0, 2, 3}, {1, 3, 4}, {2, 4, 5}, {3, 5, 6}}
 			s := algz.Knapsack(5, small, func(i item) int { return i.w }, func(i item) int { return i.v })
 			d := algz.FindDpSolvers(6, small, func(i item) int { return i.w }, true)
@@ -229,7 +306,7 @@ func breakerOf(k int) []func(old, new []item) bool {
 		}}
 	case 4:
 		// the caller forwards its own optional callback, which is nil: same as none
-		return []func(old, new []item) bool{nil}
+		return []func(old, new []T) bool{nil}
 	}
 	return nil
 }
@@ -305,7 +382,10 @@ func knap(c *sim.Case, out *sim.WorkerOut, dg *engc.Digest) *sim.Violation {
 		limit = 0
 	}
 	panickedCall(c, out, its, limit)
-	sel := algz.Knapsack(limit, its, func(i item) int { return i.w }, func(i item) int { return i.v }, breakerOf(c.P("breaker"))...)
+	sel := knapsackOf(c, limit, its)
+	if c.P("elem") > 0 {
+		out.Probes["element_type_other_than_the_plain_item"]++
+	}
 	secondCall(c, out, its, limit)
 	if v := distinct(sel, "Knapsack"); v != nil {
 		return v
@@ -364,7 +444,10 @@ func solvers(c *sim.Case, out *sim.WorkerOut, dg *engc.Digest) *sim.Violation {
 	}
 	over := c.P("over") == 1
 	panickedCall(c, out, its, limit)
-	dp := algz.FindDpSolvers(limit, its, func(i item) int { return i.w }, over, breakerOf(c.P("breaker"))...)
+	dp := dpOf(c, limit, its, over)
+	if c.P("elem") > 0 {
+		out.Probes["element_type_other_than_the_plain_item"]++
+	}
 	secondCall(c, out, its, limit)
 	// brute force: attainable totals
 	att := map[int]bool{}
